@@ -635,3 +635,198 @@ Proof.
   intros H K. destruct (fields_as_declared _ _ _ H) as (r & c & _ & _ & ->).
   exact (DocCommentProofs.doc_lossless_declared _ K).
 Qed.
+
+(* ====================================================================== *)
+(* The model meets the executable specification used to judge
+   implementation runs ([spec_decl], Macro.v): for every accepted declaration
+   outside K19, what the model registers, routes and documents in the three
+   forms satisfies every clause of the property. *)
+
+Definition model_ep (a : attr) (st : style) : res N oep :=
+  match expand st a with Ok e => Ok (oep_of e) | Err _ => Err 1 end.
+Definition model_route (a : attr) (v : option version) (st : style) : oroute :=
+  match expand st a with Ok e => oroute_of (route_view e v) | Err _ => None end.
+Definition model_op (a : attr) (v : version) (st : style) : option oop :=
+  match expand st a with Ok e => option_map oop_of (doc_view e v) | Err _ => None end.
+Definition model_probe (a : attr) (s : str) : str * list oroute * list (option oop) * bool :=
+  match Semver.parse s with
+  | Some v => (s, map (model_route a (Some v)) styles, map (model_op a v) styles, true)
+  | None => (s, [], [], true)
+  end.
+
+(* constants named in [versions] hold versions semver can print *)
+Definition spec_wf (x : vspec) : bool :=
+  match x with SIdent _ v => wf_version v | SLit _ => true end.
+Definition versions_wf (x : vsyntax) : bool :=
+  match x with
+  | VSFrom a => spec_wf a
+  | VSUntil b => spec_wf b
+  | VSFromUntil a b => spec_wf a && spec_wf b
+  | _ => true
+  end.
+
+Lemma bool_eqb_refl b : bool_eqb b b = true. Proof. destruct b; reflexivity. Qed.
+Lemma ustr_eqb_refl s : ustr_eqb s s = true.
+Proof. apply list_eqb_spec; [apply N.eqb_eq|reflexivity]. Qed.
+Lemma strs_eqb_refl l : strs_eqb l l = true.
+Proof. apply list_eqb_spec; [apply str_eqb_eq|reflexivity]. Qed.
+Lemma oustr_eqb_refl o : oustr_eqb o o = true.
+Proof. destruct o; [apply ustr_eqb_refl|reflexivity]. Qed.
+Lemma ostr_eqb_refl o : ostr_eqb o o = true.
+Proof. destruct o; [apply str_eqb_refl|reflexivity]. Qed.
+Lemma on_eqb_refl o : option_eqb N.eqb o o = true.
+Proof. destruct o; [apply N.eqb_refl|reflexivity]. Qed.
+Lemma orange_eqb_refl o : orange_eqb o o = true.
+Proof. destruct o; cbn; rewrite ?str_eqb_refl; reflexivity. Qed.
+Lemma oep_eqb_refl o : oep_eqb o o = true.
+Proof.
+  unfold oep_eqb.
+  now rewrite !str_eqb_refl, !oustr_eqb_refl, strs_eqb_refl, !bool_eqb_refl, orange_eqb_refl,
+    on_eqb_refl, ostr_eqb_refl.
+Qed.
+Lemma oroute_eqb_refl o : oroute_eqb o o = true.
+Proof.
+  destruct o as [[[x y] z]|]; cbn; [|reflexivity]. now rewrite !str_eqb_refl, on_eqb_refl.
+Qed.
+Lemma oop_eqb_refl o : oop_eqb o o = true.
+Proof.
+  unfold oop_eqb. now rewrite str_eqb_refl, !oustr_eqb_refl, !strs_eqb_refl, !bool_eqb_refl.
+Qed.
+Lemma ooop_eqb_refl o : option_eqb oop_eqb o o = true.
+Proof. destruct o; [apply oop_eqb_refl|reflexivity]. Qed.
+Lemma ver_eqb_refl v : ver_eqb v v = true.
+Proof. unfold ver_eqb. now rewrite SemverProofs.cmp_refl. Qed.
+Lemma vr_eqb_refl r : vr_eqb r r = true.
+Proof. destruct r; cbn; rewrite ?ver_eqb_refl; reflexivity. Qed.
+
+Lemma spec_version_wf x v : spec_wf x = true -> spec_version x = Some v -> wf_version v = true.
+Proof.
+  destruct x as [s|n w]; cbn [spec_wf spec_version].
+  - intros _. destruct (Semver.parse s) as [u|] eqn:E; [|discriminate].
+    destruct (is_plain u); [|discriminate]. intros [= <-]. exact (parse_wf _ _ E).
+  - intros H [= <-]. exact H.
+Qed.
+
+Lemma orange_roundtrip x r :
+  versions_wf x = true -> declared_range x = Some r -> orange_vr (vr_orange r) = Some r.
+Proof.
+  destruct x as [| |a|b|a b]; cbn [versions_wf declared_range].
+  - intros _ [= <-]. reflexivity.
+  - intros _ [= <-]. reflexivity.
+  - intros W. destruct (spec_version a) as [v|] eqn:E; [|discriminate]. intros [= <-].
+    cbn [vr_orange orange_vr]. now rewrite (parse_print _ (spec_version_wf _ _ W E)).
+  - intros W. destruct (spec_version b) as [v|] eqn:E; [|discriminate]. intros [= <-].
+    cbn [vr_orange orange_vr]. now rewrite (parse_print _ (spec_version_wf _ _ W E)).
+  - intros W. apply andb_true_iff in W. destruct W as [Wa Wb].
+    destruct (spec_version a) as [u|] eqn:Ea; [|discriminate].
+    destruct (spec_version b) as [w|] eqn:Eb; [|discriminate].
+    destruct (vleb u w); [|discriminate]. intros [= <-]. cbn [vr_orange orange_vr].
+    now rewrite (parse_print _ (spec_version_wf _ _ Wa Ea)), (parse_print _ (spec_version_wf _ _ Wb Eb)).
+Qed.
+
+(* on constructible ranges [matches] is membership *)
+Lemma vmatches_in_range r v :
+  wf_range version Semver.cmp r -> vmatches version Semver.cmp r v = in_range r v.
+Proof.
+  intros W. destruct v as [v|]; [|reflexivity]. cbn [in_range].
+  pose proof (matches_iff_in _ _ _ semver_total_order r v W) as H1.
+  pose proof (vinb_iff _ _ _ semver_total_order r v) as H2.
+  destruct (vmatches version Semver.cmp r (Some v)), (vinb version Semver.cmp r v); try reflexivity.
+  - exfalso. assert (false = true) by (apply H2, H1; reflexivity). discriminate.
+  - exfalso. assert (false = true) by (apply H1, H2; reflexivity). discriminate.
+Qed.
+
+Lemma extracted_eta e : mkExtracted (summary e) (description e) = e.
+Proof. destruct e; reflexivity. Qed.
+
+Theorem model_meets_spec a vs :
+  accepted a = true -> k19_class (a_docs a) = false -> versions_wf (a_versions a) = true ->
+  forallb (fun s => is_some (Semver.parse s)) vs = true ->
+  spec_decl a (map (model_ep a) styles) (map (model_route a None) styles)
+    (map (model_probe a) vs) = (true, true).
+Proof.
+  intros HA HK HW HV.
+  pose proof (accepted_compiles _ HA) as HC.
+  unfold accepted in HA. apply andb_true_iff in HA. destruct HA as [HA HP].
+  apply andb_true_iff in HA. destruct HA as [HR HT].
+  destruct (declared_range (a_versions a)) as [r|] eqn:ER; [|discriminate].
+  destruct (declared_ctype a) as [c|] eqn:EC; [|discriminate].
+  assert (HE : forall st, expand st a = Ok (expected st a r c)).
+  { intros st. rewrite (expand_compiles _ _ HC), ER, EC. reflexivity. }
+  pose proof (declared_range_wf _ _ ER) as WF.
+  pose proof (orange_roundtrip _ _ HW ER) as HO.
+  pose proof (doc_lossless_b_ok _ HK) as HD.
+  unfold spec_decl. rewrite ER, EC.
+  (* the registered endpoint of each form *)
+  set (O := mkOep (declared_opid a) (method_str (declared_method a)) (a_path a)
+              (summary (extract (a_docs a))) (description (extract (a_docs a))) (a_tags a)
+              (a_deprecated a) (negb (a_unpublished a)) (vr_orange r) (mime_type c)
+              (declared_maxbytes a) (option_map mime_type (body_param c (declared_body a)))
+              (is_channel a)).
+  assert (Hep : forall st, model_ep a st = Ok O).
+  { intros st. unfold model_ep. rewrite HE. reflexivity. }
+  assert (HfO : spec_ep_fields a r c O = true).
+  { unfold spec_ep_fields, O. cbn [o_method o_path o_opid o_tags o_deprecated o_visible o_maxbytes
+      o_ctype o_versions o_ws]. rewrite HO, vr_eqb_refl.
+    now rewrite !str_eqb_refl, strs_eqb_refl, !bool_eqb_refl, on_eqb_refl. }
+  assert (HdO : spec_doc a (o_summary O) (o_description O) = true).
+  { unfold spec_doc, O. cbn [o_summary o_description]. now rewrite extracted_eta. }
+  (* routing *)
+  set (R := fun v : option version =>
+              if in_range r v then Some (declared_opid a, mime_type c, declared_maxbytes a) else None).
+  assert (Hrt : forall v st, model_route a v st = R v).
+  { intros v st. unfold model_route, R. rewrite HE. unfold route_view, expected.
+    cbn [e_versions e_opid e_ctype e_maxbytes]. rewrite (vmatches_in_range _ _ WF).
+    destruct (in_range r v); reflexivity. }
+  assert (HsR : forall v, spec_route a r c v (R v) = true).
+  { intros v. unfold spec_route, R. destruct (in_range r v); cbn [negb andb]; [|reflexivity].
+    now rewrite !str_eqb_refl, on_eqb_refl. }
+  (* documents *)
+  set (D := fun v : version =>
+              if negb (a_unpublished a) && in_range r (Some v)
+              then Some (mkOop (declared_opid a) (summary (extract (a_docs a)))
+                           (description (extract (a_docs a))) (a_tags a) (a_deprecated a)
+                           (match body_param c (declared_body a) with
+                            | Some c' => [mime_type c'] | None => [] end) (is_channel a))
+              else None).
+  assert (Hop : forall v st, model_op a v st = D v).
+  { intros v st. unfold model_op, D. rewrite HE. unfold doc_view, expected.
+    cbn [e_visible e_versions e_opid e_summary e_description e_tags e_deprecated e_body_param
+         e_websocket]. rewrite (vmatches_in_range _ _ WF).
+    destruct (negb (a_unpublished a) && in_range r (Some v)); reflexivity. }
+  assert (HsD : forall v, spec_op a r v (D v) = (true, true)).
+  { intros v. unfold spec_op, D.
+    destruct (a_unpublished a); cbn [negb andb orb]; [reflexivity|].
+    destruct (in_range r (Some v)); cbn [negb]; [|reflexivity].
+    cbn [p_opid p_tags p_deprecated p_req p_ws p_summary p_description].
+    unfold spec_doc. rewrite extracted_eta, HD.
+    unfold declared_req. rewrite EC.
+    rewrite str_eqb_refl, strs_eqb_refl, !bool_eqb_refl. cbn [andb].
+    destruct (declared_body a); cbn [body_param]; rewrite strs_eqb_refl; reflexivity. }
+  cbn [map styles]. rewrite !Hep, !Hrt.
+  cbn [forallb all_eq res_oep_eqb]. rewrite HfO, HdO, oep_eqb_refl, oroute_eqb_refl, HsR.
+  cbn [andb].
+  (* the probes *)
+  assert (Hpr : forall s, is_some (Semver.parse s) = true ->
+     (match model_probe a s with (_, rs, ops, same) =>
+        all_eq oroute_eqb rs && all_eq (option_eqb oop_eqb) ops && same end) = true /\
+     (match model_probe a s with (vs0, rs, ops, _) =>
+        match Semver.parse vs0 with
+        | Some v => (forallb (spec_route a r c (Some v)) rs && forallb fst (map (spec_op a r v) ops),
+                     forallb snd (map (spec_op a r v) ops))
+        | None => (false, false)
+        end end) = (true, true)).
+  { intros s Hs. unfold model_probe. destruct (Semver.parse s) as [v|] eqn:Es; [|discriminate].
+    cbn [map styles]. rewrite !Hrt, !Hop. rewrite Es.
+    cbn [all_eq map forallb]. rewrite oroute_eqb_refl, ooop_eqb_refl, HsR, HsD. split; reflexivity. }
+  match goal with
+  | |- (forallb ?F1 ?l && true && forallb fst (map ?F2 ?l), forallb snd (map ?F2 ?l)) = _ =>
+      assert (HF : forallb F1 l = true /\ forallb fst (map F2 l) = true /\
+                   forallb snd (map F2 l) = true)
+  end.
+  { induction vs as [|s vs IH]; [repeat split|].
+    cbn [forallb] in HV. apply andb_true_iff in HV. destruct HV as [Hs HV].
+    destruct (IH HV) as (I1 & I2 & I3). destruct (Hpr s Hs) as [P1 P2].
+    cbn [map forallb]. cbv beta. rewrite P1, P2, I1, I2, I3. repeat split. }
+  destruct HF as (F1 & F2 & F3). rewrite F1, F2, F3. reflexivity.
+Qed.
